@@ -34,10 +34,26 @@ def strip_comments(src):
     return re.sub(r"/\*.*?\*/", "", src, flags=re.S)
 
 
+ALLOWED_ATTRS = re.compile(r"#\[inline(?:\(always\))?\]")
+
+
 def find_fn(src, name):
-    m = re.search(r"(?:const\s+)?fn\s+" + name + r"\s*\(([^)]*)\)\s*->\s*([A-Za-z_]+)\s*\{", src)
-    if not m:
+    """the unique definition of `fn name` in the (comment-stripped) text; a second definition, or a definition that
+    carries an attribute other than `#[inline]` / `#[inline(always)]` (conditional compilation!), raises Unparsed"""
+    ms = list(re.finditer(r"(?:const\s+)?fn\s+" + name + r"\s*\(([^)]*)\)\s*->\s*([A-Za-z_]+)\s*\{", src))
+    if not ms:
         return None
+    if len(ms) != 1 or len(re.findall(r"\bfn\s+" + name + r"\b", src)) != 1:
+        raise Unparsed("`fn %s` is defined more than once in a file" % name)
+    m = ms[0]
+    head = src[:m.start()]
+    cut = max(head.rfind("}"), head.rfind(";"))
+    prefix = ALLOWED_ATTRS.sub("", head[cut + 1:])
+    prefix = re.sub(r"\bpub(?:\s*\(\s*crate\s*\))?", "", prefix).strip()
+    if prefix:
+        raise Unparsed("`fn %s` carries `%s`" % (name, re.sub(r"\s+", " ", prefix)[:60]))
+    if re.search(r"\bmacro_rules\b", src):
+        raise Unparsed("`macro_rules!` in the file of `fn %s`" % name)
     i = m.end()
     depth = 1
     j = i
@@ -193,16 +209,25 @@ def translate(params, ret, body):
     return e, p.partial
 
 
-def main():
+def analyse():
+    """-> (report, text of Arith.lean or None): nothing is written"""
     report = {"functions": {}, "partialFns": [], "unparsed": [], "copies_agree": True}
     defs = {}
     for name in WANTED:
         copies = []
+        refused = None
         for f in FILES:
             src = strip_comments(open(os.path.join(REPO, f)).read())
-            r = find_fn(src, name)
+            try:
+                r = find_fn(src, name)
+            except Unparsed as ex:
+                refused = "%s: %s" % (f, ex)
+                break
             if r is not None:
                 copies.append((f, r))
+        if refused:
+            report["unparsed"].append({"fn": name, "why": refused})
+            continue
         if not copies:
             report["unparsed"].append({"fn": name, "why": "not found"})
             continue
@@ -270,6 +295,12 @@ def main():
     new = "\n".join(text) + "\n"
     complete = not report["unparsed"]
     report["complete"] = complete
+    return report, new
+
+
+def main():
+    report, new = analyse()
+    complete = report["complete"]
     old = open(OUT).read() if os.path.exists(OUT) else None
     report["changed"] = (old != new)
     if complete or old is None:
